@@ -324,6 +324,16 @@ func (g *treeGen) leaf(t *rapid.T) *model.Node {
 		n := rapid.SampledFrom(cs).Draw(t, "bulkN")
 		return &model.Node{Kind: kind, Bulk: &model.Bulk{N: n, Seed: rapid.Uint64().Draw(t, "bulkSeed")}}
 	}
+	if g.o.Bulk && rapid.IntRange(0, 11).Draw(t, "mediumHere") == 11 {
+		// medium sizes between the handful of elements of ordinary leaves and the length-field borders: powers of two and
+		// their neighbours (sizes of fixed buffers and of fast paths), or any count up to 300
+		n := rapid.IntRange(7, 300).Draw(t, "mediumN")
+		if rapid.Bool().Draw(t, "mediumPow2") {
+			n = (1 << rapid.IntRange(3, 8).Draw(t, "mediumExp")) + rapid.IntRange(-2, 2).Draw(t, "mediumDelta")
+		}
+		stats.labelOnly("medium-size-leaf", 1)
+		return &model.Node{Kind: kind, Bulk: &model.Bulk{N: n, Seed: rapid.Uint64().Draw(t, "bulkSeed")}}
+	}
 	if kind == model.A {
 		if g.o.Vars && rapid.IntRange(1, 100).Draw(t, "avar") > 100-g.o.VarPct {
 			av := &model.AVar{Name: g.nm.draw(t), Min: 0, Max: -1}
